@@ -120,10 +120,17 @@ def block(b, c, tight=False):
         return '<%s>\n' % tag + '\n'.join(out) + '\n</%s>' % tag
     if k == 'table':
         al, hdr, rows = b[1], b[2], b[3]
+        # the blanks that pad a cell in the source are part of the cell; a row written without its outer pipes has none at its two ends
+        opened = len(b) > 5 and b[5] == 'open' and len(al) >= 2
+
+        def cells(tag, row):
+            n = len(al)
+            return ''.join('\t<%s%s>%s%s%s</%s>\n' % (tag, AL_STYLE[a], '' if (opened and i == 0) else ' ', inl(cc, c), '' if (opened and i == n - 1) else ' ', tag)
+                           for i, (a, cc) in enumerate(zip(al, row)))
         h = '<table>\n<colgroup>\n' + ''.join(COL[a] + '\n' for a in al) + '</colgroup>\n\n<thead>\n<tr>\n'
-        h += ''.join('\t<th%s> %s </th>\n' % (AL_STYLE[a], inl(cc, c)) for a, cc in zip(al, hdr)) + '</tr>\n</thead>\n\n<tbody>\n'
+        h += cells('th', hdr) + '</tr>\n</thead>\n\n<tbody>\n'
         for r in rows:
-            h += '<tr>\n' + ''.join('\t<td%s> %s </td>\n' % (AL_STYLE[a], inl(cc, c)) for a, cc in zip(al, r)) + '</tr>\n'
+            h += '<tr>\n' + cells('td', r) + '</tr>\n'
         return h + '</tbody>\n</table>'
     if k == 'deflist':
         return '<dl>\n' + ''.join('<dt>%s</dt>\n' % esc(t) for t in b[1]) + '\n\n'.join('<dd>%s</dd>' % esc(d) for d in b[2]) + '\n</dl>'
